@@ -716,10 +716,27 @@ def paired(prog: Program, rep: Report):
         for n, nd in fa.cfg.nodes.items():
             st = nd.ast if nd.kind == "stmt" else None
             if isinstance(st, ast.Assign) and isinstance(st.targets[0], ast.Tuple) and isinstance(st.value, ast.Call) \
-                    and st.value.args and isinstance(st.value.args[0], ast.Tuple):
-                a = [_n(e) for e in st.value.args[0].elts]
-                t = [_n(e) for e in st.targets[0].elts]
-                ok = a == t and len(a) == 2
+                    and st.value.args:
+                a0 = fa.expand(st.value.args[0], n)  # the pair may be packed into a local first
+                if isinstance(a0, ast.Name):
+                    ds = fa.cfg.reaching().get(n, {}).get(a0.id, set())
+                    vals = [fa.cfg.def_value(d, a0.id) for d in ds]
+                    if len(vals) == 1 and isinstance(vals[0], ast.Tuple):
+                        a0 = vals[0]
+                if isinstance(a0, ast.Tuple):
+                    a = [_n(e) for e in a0.elts]
+                    t = [_n(e) for e in st.targets[0].elts]
+                    ok = ok or (a == t and len(a) == 2)
+            # res = transform((x, semseg), ..) ; x, semseg = res
+            if isinstance(st, ast.Assign) and isinstance(st.targets[0], ast.Tuple) and isinstance(st.value, ast.Name):
+                ds = fa.cfg.reaching().get(n, {}).get(st.value.id, set())
+                vals = [fa.cfg.def_value(d, st.value.id) for d in ds]
+                if len(vals) == 1 and isinstance(vals[0], ast.Call) and vals[0].args and isinstance(vals[0].args[0], ast.Tuple):
+                    a = [_n(e) for e in vals[0].args[0].elts]
+                    t = [_n(e) for e in st.targets[0].elts]
+                    ok = ok or (a == t and len(a) == 2)
+        if not ok:
+            ok = None  # another way of feeding the pair through: not decided here
         rep.decide(ok, "G9.paired-geometry", fi, "wrapper-pair", "x, semseg = transform((x, semseg), ctx=ctx)",
                    "the wrapper does not pass (x, semseg) through the paired transform and rebind both", clause="C14.3",
                    nontrivial=False)
